@@ -53,30 +53,37 @@ def obs_alignment(cols_in, cols_val, keys):
         t0 = time.time()
         ex = Executor(SRC)
         rec, ind = obs_generator(cols_in, cols_val, keys)
-        (o,) = ex.call_method(rec, "obs_batch")
-        new, batch = o.value
-        pi = ex.perms[0][0]
-        pre = [b >= 1, b <= n, n < 2 ** 30, Inv(idx, b, n), r_ >= 0, r_ < b, c_ >= 0] + list(o.pc)
-        # invariant on the index vector (range), instantiated where needed
-        rng = lambda t: z3.And(ind(t) >= 0, ind(t) < n)
-        newind = new.fields["indices"]
-        R = z3.Or(idx == INT32_MAX - b - 1, idx + b >= n)
-        idx1 = z3.If(R, 0, idx + b)
-        cst = z3.If(idx1 > n - b, n - b, idx1)
-        m = newind.elem(cst + r_)
-        ax = perm_axioms(ex.perms[0], [cst + r_]) + [rng(cst + r_), rng(pi(cst + r_))]
-        goals = [("index_in_range", z3.And(zint(m) >= 0, zint(m) < n)),
-                 ("input_row", z3.Implies(c_ < cols_in, batch["pinn_in"].elem(r_, c_) == rec.fields["observed_pinn_in"].elem(m, c_))),
-                 ("value_row", z3.Implies(c_ < cols_val, batch["val"].elem(r_, c_) == rec.fields["observed_values"].elem(m, c_))),
-                 ("keys", z3.BoolVal(sorted(batch["eq_params"].keys()) == sorted(keys))),
-                 ("shapes", z3.And(zint(batch["pinn_in"].shape[0]) == b, zint(batch["val"].shape[0]) == b))]
-        for k in keys:
-            goals.append((f"parameter_row[{k}]", batch["eq_params"][k].elem(r_, 0) == rec.fields["observed_eq_params"][k].elem(m, 0)))
-        goals.append(("tables_untouched", z3.BoolVal(new.fields["observed_pinn_in"] is rec.fields["observed_pinn_in"]
-                                                     and new.fields["observed_values"] is rec.fields["observed_values"])))
-        # canary: value taken from a different row than the input
-        canary = z3.Implies(c_ < cols_val, batch["val"].elem(r_, c_) == rec.fields["observed_values"].elem(newind.elem(cst + r_ + 1), c_))
-        return finish(name, goals, pre, ex, t0, ax, canary)
+        outs = [o for o in ex.call_method(rec, "obs_batch") if o.kind == "return"]
+        if not outs:
+            raise pyvc.Unsupported("obs_batch: no normal return")
+        last = None
+        for o in outs:         # one outcome per path the code distinguishes (e.g. a special case for a full batch)
+            new, batch = o.value
+            pi = ex.perms[0][0]
+            pre = [b >= 1, b <= n, n < 2 ** 30, Inv(idx, b, n), r_ >= 0, r_ < b, c_ >= 0] + list(o.pc)
+            # invariant on the index vector (range), instantiated where needed
+            rng = lambda t: z3.And(ind(t) >= 0, ind(t) < n)
+            newind = new.fields["indices"]
+            R = z3.Or(idx == INT32_MAX - b - 1, idx + b >= n)
+            idx1 = z3.If(R, 0, idx + b)
+            cst = z3.If(idx1 > n - b, n - b, idx1)
+            m = newind.elem(cst + r_)
+            ax = perm_axioms(ex.perms[0], [cst + r_]) + [rng(cst + r_), rng(pi(cst + r_))]
+            goals = [("index_in_range", z3.And(zint(m) >= 0, zint(m) < n)),
+                     ("input_row", z3.Implies(c_ < cols_in, batch["pinn_in"].elem(r_, c_) == rec.fields["observed_pinn_in"].elem(m, c_))),
+                     ("value_row", z3.Implies(c_ < cols_val, batch["val"].elem(r_, c_) == rec.fields["observed_values"].elem(m, c_))),
+                     ("keys", z3.BoolVal(sorted(batch["eq_params"].keys()) == sorted(keys))),
+                     ("shapes", z3.And(zint(batch["pinn_in"].shape[0]) == b, zint(batch["val"].shape[0]) == b))]
+            for k in keys:
+                goals.append((f"parameter_row[{k}]", batch["eq_params"][k].elem(r_, 0) == rec.fields["observed_eq_params"][k].elem(m, 0)))
+            goals.append(("tables_untouched", z3.BoolVal(new.fields["observed_pinn_in"] is rec.fields["observed_pinn_in"]
+                                                         and new.fields["observed_values"] is rec.fields["observed_values"])))
+            # canary: value taken from a different row than the input
+            canary = z3.Implies(c_ < cols_val, batch["val"].elem(r_, c_) == rec.fields["observed_values"].elem(newind.elem(cst + r_ + 1), c_))
+            last = finish(name, goals, pre, ex, t0, ax, canary)
+            if last.get("status") != "discharged":
+                return last
+        return last
     return FnObligation(name, run, [DG + "DataGeneratorObservations.obs_batch"])
 
 
@@ -255,14 +262,18 @@ def index_invariant():
         t0 = time.time()
         ex = Executor(SRC)
         rec, ind = obs_generator(1, 1, ())
-        (o,) = ex.call_method(rec, "obs_batch")
-        new, _ = o.value
-        k = z3.Int("k")
-        pi = ex.perms[0][0]
-        pre = [b >= 1, b <= n, n < 2 ** 30, Inv(idx, b, n), k >= 0, k < n] + list(o.pc)
-        ax = perm_axioms(ex.perms[0], [k]) + [z3.And(ind(k) >= 0, ind(k) < n), z3.And(ind(pi(k)) >= 0, ind(pi(k)) < n)]
-        goal = z3.And(zint(new.fields["indices"].elem(k)) >= 0, zint(new.fields["indices"].elem(k)) < n)
-        return finish(name, [("preserved", goal)], pre, ex, t0, ax)
+        last = None
+        for o in [o for o in ex.call_method(rec, "obs_batch") if o.kind == "return"]:
+            new, _ = o.value
+            k = z3.Int("k")
+            pi = ex.perms[0][0]
+            pre = [b >= 1, b <= n, n < 2 ** 30, Inv(idx, b, n), k >= 0, k < n] + list(o.pc)
+            ax = perm_axioms(ex.perms[0], [k]) + [z3.And(ind(k) >= 0, ind(k) < n), z3.And(ind(pi(k)) >= 0, ind(pi(k)) < n)]
+            goal = z3.And(zint(new.fields["indices"].elem(k)) >= 0, zint(new.fields["indices"].elem(k)) < n)
+            last = finish(name, [("preserved", goal)], pre, ex, t0, ax)
+            if last.get("status") != "discharged":
+                return last
+        return last
     return FnObligation(name, run, [DG + "DataGeneratorObservations.obs_batch"])
 
 
@@ -276,14 +287,16 @@ def _safe(f):
 def native_alignment():
     import numpy as np, jax, jax.numpy as jnp
     from jinns.data._DataGenerators import DataGeneratorObservations
-    nn, bb = 7, 3
-    g = DataGeneratorObservations(jax.random.PRNGKey(1), bb, jnp.arange(nn, dtype=float)[:, None], 10.0 + jnp.arange(nn, dtype=float)[:, None],
-                                  {"a": 20.0 + jnp.arange(nn, dtype=float)[:, None]})
-    for call in range(8):
-        g, bt = g.get_batch()
-        i, v, a = np.asarray(bt["pinn_in"])[:, 0], np.asarray(bt["val"])[:, 0], np.asarray(bt["eq_params"]["a"])[:, 0]
-        if not (np.allclose(v, i + 10) and np.allclose(a, i + 20)):
-            return [f"call {call}: batch rows mix different table rows: inputs {i.tolist()}, values {v.tolist()}, parameter {a.tolist()}"]
+    nn = 7
+    for bb in (3, nn, 1):           # a batch size that does not divide, the full table, single rows
+        g = DataGeneratorObservations(jax.random.PRNGKey(1), bb, jnp.arange(nn, dtype=float)[:, None], 10.0 + jnp.arange(nn, dtype=float)[:, None],
+                                      {"a": 20.0 + jnp.arange(nn, dtype=float)[:, None]})
+        for call in range(8):
+            g, bt = g.get_batch()
+            i, v, a = np.asarray(bt["pinn_in"])[:, 0], np.asarray(bt["val"])[:, 0], np.asarray(bt["eq_params"]["a"])[:, 0]
+            if not (np.allclose(v, i + 10) and np.allclose(a, i + 20)):
+                return [f"{nn} observations, batch size {bb}, call {call}: batch rows mix different table rows: inputs {i.tolist()}, values {v.tolist()}, parameter {a.tolist()}"]
+    bb = 3
     # integer-typed inputs (time-step indices), real-valued measurements; two observed parameters written in non-sorted
     # order; with and without a storage sharding
     vals = 0.113 + 1.7 * np.arange(nn)
